@@ -279,6 +279,7 @@ func runSession(c Case, tr *Tracer) {
 		i    int
 		b    []byte
 		resp sms.PDU
+		req  sms.PDU
 	}
 	var pend []pending
 	flush := func() {
@@ -295,6 +296,7 @@ func runSession(c Case, tr *Tracer) {
 				}
 			}
 			tr.emit(re)
+			again(tr, pkg, pd.req, types[pd.i])
 		}
 		pend = nil
 	}
@@ -319,7 +321,7 @@ func runSession(c Case, tr *Tracer) {
 		}
 		var resp sms.PDU
 		guard(func() { resp = p.GenEmptyResponse() })
-		pend = append(pend, pending{i, b, resp})
+		pend = append(pend, pending{i, b, resp, p})
 		if !hold {
 			flush()
 		}
@@ -337,6 +339,18 @@ func runSession(c Case, tr *Tracer) {
 		}
 		tr.emit(e)
 	}
+}
+
+// again re-encodes a request after it has been answered: it is still a PDU obtained from the library, so the
+// command it reports is the one in its encoded header and the dispatcher maps the octets back to its type
+func again(tr *Tracer, pkg string, req sms.PDU, tn string) {
+	var b []byte
+	var err error
+	if guard(func() { b, err = req.IEncode() }) || err != nil || len(b) < 12 {
+		return
+	}
+	dt, _ := dispatchName(pkg, b)
+	tr.emit(Ev{"ev": "Again", "type": typeNameOf(req), "bytes": B(b), "getcmd": pduGetCmd(req), "dtype": dt, "site": tn + ".after_reply"})
 }
 
 func runDispatch(c Case, kind string, tr *Tracer) {
@@ -425,6 +439,7 @@ func runSessionScript(pkg string, script []map[string]interface{}, rr *rand.Rand
 				}
 			}
 			tr.emit(re)
+			again(tr, pkg, p, types[i])
 		case "C":
 			i := caseInt(st, "idx") - 1
 			if i < 0 || i >= len(replies) || replies[i] == nil {
